@@ -839,6 +839,8 @@ def _rename_refs(q, old, new):
                 walk(d.decls)
     if q.head == old:
         q.head = new
+    elif q.head.endswith(" = " + old):
+        q.head = q.head[: -len(old)] + new
     walk_steps(q.steps)
     walk(q.decls)
 
@@ -1033,4 +1035,20 @@ def two_ref_pairs(pg, rng):
     coq = ("(let x := run TQ_BASE %s in run x [TDerive [(Some %d%%N, ECol None %d%%N)]; TJoin %s %d%%N %s x %s; TSelect [%s]])"
            % (pcoq, P.nid(lk), P.nid(k), side, P.nid("y"), P.coq_names(cols), P.coq_expr(on), selc))
     out.append(("let2-selfjoin", base, q, coq, False, [lk] + ["y_" + c for c in [k] + others]))
+    # --- direct self join: both sides referenced through aliases, no helper column in between
+    #     from x = P | join y = P (x.k == y.k) | select {lk = x.k, y.c...}      (same meaning, same reference term)
+    #     (only where the left columns still belong to the relation named at `from`: plain table columns passed through)
+    if set(pg.kinds()) <= {"filter", "sort", "take", "select", "derive"} and all(c in P.TABLES["t"] for c in [k] + others):
+        on2 = map_expr(on, lambda n: ("col", "x", k) if n == ("col", None, lk) else n)
+        sel2 = [(lk, ("col", "x", k))] + sel_items[1:]
+        jtxt2 = "join %sy = (%s) (%s)" % ("side:left " if side == "LeftJ" else "", pre_txt, show_expr(on2))
+        seltxt2 = "select {%s}" % ", ".join("%s = %s" % (n, show_expr(e)) for n, e in sel2)
+        base2 = "\n".join(["from x = t"] + pre_lines[1:] + [jtxt2, seltxt2])
+        q = from_program(pg)
+        name = q.new("r")
+        q.decls.append(LetTable(name, "t", q.steps, "let"))
+        q.head = "x = " + name
+        q.steps = [RStep("join_ref", ref=name, expr=on2, info={"alias": ("side:left " if side == "LeftJ" else "") + "y"}), RStep("raw", raw=seltxt2)]
+        q.trace = ["let2-selfjoin-direct"]
+        out.append(("let2-selfjoin-direct", base2, q, coq, False, [lk] + ["y_" + c for c in [k] + others]))
     return out
